@@ -9,6 +9,9 @@
 (*               g^(2^j) over the reversed remaining index bits              *)
 (*   Vanishing   (x/shift)^(2^log_n) - 1 by repeated squaring                *)
 (*   Selectors   is_first_row / is_last_row / is_transition / inv_vanishing  *)
+(*   Periodic    evaluate_periodic_columns_circuit: per column, build-time   *)
+(*               coefficients (inverse coset DFT), folds = log_n - log_period *)
+(*               squarings of the point, Horner - for a LIST of columns       *)
 (* The case machine picks a gadget and its parameters; the invariant compares *)
 (* the transcribed algorithm with the mathematical definition.               *)
 (***************************************************************************)
@@ -20,10 +23,11 @@ GF == 0 .. P - 1
 M(x) == x % P
 RECURSIVE Pow(_, _)
 Pow(b, e) == IF e = 0 THEN 1 ELSE M(b * Pow(b, e - 1))
-Inv(a) == CHOOSE x \in GF : M(a * x) = 1
+Inv(a) == Pow(a, P - 2)        \* Fermat; Inv(0) = 0 is never used
 TwoAdicGen(k) == Pow(GEN, 16 \div (2 ^ k))    \* generator of the subgroup of order 2^k
 
-CONSTANTS MaxExp, MaxLen
+CONSTANTS MaxExp, MaxLen,
+          PeriodicShared   \* FALSE = the code (every column squares the point itself); TRUE = squarings carried over between columns
 
 VARIABLES g, args
 vars == <<g, args>>
@@ -77,12 +81,60 @@ NativeVanishing(x, logn, shift) == M(Pow(M(x * Inv(shift)), 2 ^ logn) + P - 1)
 DomainVanishing(x, logn, shift) ==
     LET RECURSIVE Pr(_) Pr(i) == IF i >= 2 ^ logn THEN 1 ELSE M((x + P - M(shift * Pow(TwoAdicGen(logn), i))) * Pr(i + 1)) IN Pr(0)
 
+\* --- periodic columns (recursion/src/verifier/periodic.rs) -----------------------------------------------------------
+Log2(n) == CHOOSE k \in 0..4 : 2 ^ k = n
+SqN(k, v) == LET RECURSIVE Sq(_, _) Sq(i, w) == IF i = 0 THEN w ELSE Sq(i - 1, M(w * w)) IN Sq(k, v)
+SumTo(n, f(_)) == LET RECURSIVE S(_) S(i) == IF i > n THEN 0 ELSE M(f(i) + S(i + 1)) IN S(1)
+\* monomial coefficients (ascending) of the interpolant of col over subshift * <h>, h of order Len(col): inverse coset DFT
+PCoeffs(col, ss) ==
+    LET per == Len(col)
+        h == TwoAdicGen(Log2(per))
+        pt(j) == M(ss * Pow(h, j - 1))
+    IN [i \in 1..per |-> M(Inv(per % P) * SumTo(per, LAMBDA j : M(col[j] * Pow(Inv(pt(j)), i - 1))))]
+\* Horner from the leading coefficient down, at zp
+PHorner(cs, zp) == LET RECURSIVE H(_, _) H(i, acc) == IF i = 0 THEN acc ELSE H(i - 1, M(acc * zp + cs[i])) IN H(Len(cs) - 1, cs[Len(cs)])
+\* the list of columns; `done` = squarings already applied to the carried point (only used when PeriodicShared)
+PeriodicCols(cols, logn, shift, z) ==
+    LET RECURSIVE Go(_, _, _, _)
+        Go(i, done, carried, acc) ==
+            IF i > Len(cols) THEN acc
+            ELSE LET col == cols[i]
+                     folds == logn - Log2(Len(col))
+                     cs == PCoeffs(col, Pow(shift, 2 ^ folds))
+                 IN IF Len(col) = 1 THEN Go(i + 1, done, carried, Append(acc, cs[1]))     \* constant column: the point is not touched
+                    ELSE IF ~PeriodicShared THEN Go(i + 1, done, carried, Append(acc, PHorner(cs, SqN(folds, z))))
+                    ELSE LET extra == IF folds > done THEN folds - done ELSE 0
+                             zp == SqN(extra, carried)
+                         IN Go(i + 1, IF folds > done THEN folds ELSE done, zp, Append(acc, PHorner(cs, zp)))
+    IN Go(1, 0, z, <<>>)
+\* native definition: Lagrange interpolation over the sub-coset, at z^(2^folds)
+NativePeriodic(col, logn, shift, z) ==
+    LET per == Len(col)
+        folds == logn - Log2(per)
+        ss == Pow(shift, 2 ^ folds)
+        h == TwoAdicGen(Log2(per))
+        pt(j) == M(ss * Pow(h, j - 1))
+        zp == Pow(z, 2 ^ folds)
+        RECURSIVE Num(_, _) Num(j, k) == IF k > per THEN 1 ELSE M((IF k = j THEN 1 ELSE M(zp + P - pt(k))) * Num(j, k + 1))
+        RECURSIVE Den(_, _) Den(j, k) == IF k > per THEN 1 ELSE M((IF k = j THEN 1 ELSE M(pt(j) + P - pt(k))) * Den(j, k + 1))
+    IN SumTo(per, LAMBDA j : M(col[j] * M(Num(j, 1) * Inv(Den(j, 1)))))
+\* what "periodic" means: on row r of the trace domain the column takes col[r mod period]
+OnDomain(col, logn, shift, r) == NativePeriodic(col, logn, shift, M(shift * Pow(TwoAdicGen(logn), r))) = col[(r % Len(col)) + 1]
+PCols1 == {<<0>>, <<5>>}
+PCols2 == {<<0, 1>>, <<5, 5>>, <<1, 16>>, <<3, 0>>}
+PCols4 == {<<0, 1, 5, 0>>, <<1, 0, 0, 0>>, <<5, 1, 0, 1>>, <<2, 2, 2, 2>>}
+PCols8 == {<<1, 0, 0, 0, 0, 0, 0, 0>>, <<0, 1, 2, 3, 4, 5, 6, 7>>}
+PColsUpTo(logn) == PCols1 \cup (IF logn >= 1 THEN PCols2 ELSE {}) \cup (IF logn >= 2 THEN PCols4 ELSE {}) \cup (IF logn >= 3 THEN PCols8 ELSE {})
+
 Init == g = "none" /\ args = <<>>
+\* two steps so that TLC spreads the column lists over its workers
+PickPeriodicParams == g = "none" /\ \E logn \in 0..3, k \in 1..3, z \in {0, 3, 11}, s \in {1, 3} : g' = "periodic_params" /\ args' = <<logn, k, s, z>>
+PickPeriodic == g = "periodic_params" /\ \E cols \in [1..args[2] -> PColsUpTo(args[1])] : g' = "periodic" /\ args' = <<cols, args[1], args[3], args[4]>>
 PickExp  == g = "none" /\ \E b \in GF, n \in 1..MaxExp : g' = "exp_const" /\ args' = <<b, n>>
 PickPoly == g = "none" /\ \E len \in 1..MaxLen : \E cs \in [1..len -> {0, 1, 5, 16}], x \in {0, 1, 3, 11} : g' = "eval_poly" /\ args' = <<cs, x>>
 PickFinal == g = "none" /\ \E lmh \in 1..4 : \E c \in 0..lmh, idx \in 0..(2 ^ lmh - 1) : g' = "final_query_point" /\ args' = <<idx, lmh, c>>
 PickVan == g = "none" /\ \E logn \in 0..4, x \in GF, s \in {1, 3} : g' = "vanishing" /\ args' = <<x, logn, s>>
-Next == PickExp \/ PickPoly \/ PickFinal \/ PickVan
+Next == PickExp \/ PickPoly \/ PickFinal \/ PickVan \/ PickPeriodicParams \/ PickPeriodic
 Spec == Init /\ [][Next]_vars
 
 GadgetEqualsNative ==
@@ -92,4 +144,10 @@ GadgetEqualsNative ==
     /\ g = "vanishing" => /\ Vanishing(args[1], args[2], args[3]) = NativeVanishing(args[1], args[2], args[3])
                           \* the closed form is the product over the coset, normalised by shift^n
                           /\ Vanishing(args[1], args[2], args[3]) = M(DomainVanishing(args[1], args[2], args[3]) * Inv(Pow(args[3], 2 ^ args[2])))
+    /\ g = "periodic" => LET out == PeriodicCols(args[1], args[2], args[3], args[4]) IN
+                            /\ Len(out) = Len(args[1])
+                            /\ \A i \in 1..Len(args[1]) : out[i] = NativePeriodic(args[1][i], args[2], args[3], args[4])
+\* the native definition is the periodic extension of the column over the trace domain
+PeriodicMeansPeriodic ==
+    g = "periodic" => \A i \in 1..Len(args[1]) : \A r \in 0..(2 ^ args[2] - 1) : OnDomain(args[1][i], args[2], args[3], r)
 =============================================================================
